@@ -327,8 +327,12 @@ func (r *LayerManager) release(ctx context.Context, refspec reference.Spec, tocD
 		if !ok {
 			return 0, fmt.Errorf("layer of digest %q/%q is not registered (ref=%d)", refspec, tocDigest, i)
 		}
+		layerDigest := l.Info().Digest
 		l.Done()
 		delete(r.layer[refspec.String()], tocDigest.String())
+		if m := r.resolveLayerCache[refspec.String()]; m != nil {
+			delete(m, layerDigest.String()) // this layer is gone: resolve it again on the next lookup
+		}
 		if len(r.layer[refspec.String()]) == 0 {
 			delete(r.layer, refspec.String())
 		}
